@@ -380,3 +380,30 @@ Example C05_resolution_field_access_nonvacuous :
   nth 12 (ScopeSpecT.spec_uses ex_fa) (mkR 0 0 0, None) = (mkR 0 123 124, Some (mkR 1 14 15)) /\
   rev (s_uses (index_ws ex_fa)) = ScopeSpecT.spec_uses ex_fa.
 Proof. vm_compute. repeat split; reflexivity. Qed.
+
+(** Non-vacuity of the typed part beyond declared types (REAL parse):
+      class A { int x = 1; }
+      class B { A a; list<A> l = []; }
+      class C : B { let a = ?; int p = a.x; int q = l[0].x; }
+      def d : A;
+      def e : B { let a = d; }
+      def g { int r = e.a.x; }
+      class H<list<A> ls> { int t = ls[0].x; }
+      def k : B;
+      foreach i = k.l in { def : A { let x = i.x; } }
+    25 uses; the five accesses to x - through an INHERITED field re-declared by a `let` (91..92), an element of an inherited
+    list field (107..108), a CHAIN through a def and its re-declared field (168..169), an element of a template argument
+    of list type (209..210) and the variable of a foreach over a field access (266..267) - all resolve to A's field x. *)
+Definition ex_fa2 : workspace :=
+  (mkWs [[(SClass (mkId (mkR 0 6 7) [65]) None [] [(IField TyInt (mkId (mkR 0 14 15) [120]) (Some (Val (mkR 0 18 19) [(Inner SInt [])])))]); (SClass (mkId (mkR 0 29 30) [66]) None [] [(IField (TyClass (mkId (mkR 0 33 34) [65])) (mkId (mkR 0 35 36) [97]) None); (IField (TyList (TyClass (mkId (mkR 0 43 44) [65]))) (mkId (mkR 0 46 47) [108]) (Some (Val (mkR 0 50 52) [(Inner (SList []) [])])))]); (SClass (mkId (mkR 0 62 63) [67]) None [(CRef (mkId (mkR 0 66 67) [66]) [] (mkR 0 66 68))] [(ILet (mkId (mkR 0 74 75) [97]) (Val (mkR 0 78 79) [(Inner SUninit [])])); (IField TyInt (mkId (mkR 0 85 86) [112]) (Some (Val (mkR 0 89 92) [(Inner (SId (mkId (mkR 0 89 90) [97])) [(SufField (mkId (mkR 0 91 92) [120]) (mkR 0 90 92))])]))); (IField TyInt (mkId (mkR 0 98 99) [113]) (Some (Val (mkR 0 102 108) [(Inner (SId (mkId (mkR 0 102 103) [108])) [(SufSlice true); (SufField (mkId (mkR 0 107 108) [120]) (mkR 0 106 108))])])))]); (SDef (Some (Val (mkR 0 116 118) [(Inner (SId (mkId (mkR 0 116 117) [100])) [])])) (mkR 0 112 123) [(CRef (mkId (mkR 0 120 121) [65]) [] (mkR 0 120 121))] []); (SDef (Some (Val (mkR 0 127 129) [(Inner (SId (mkId (mkR 0 127 128) [101])) [])])) (mkR 0 123 148) [(CRef (mkId (mkR 0 131 132) [66]) [] (mkR 0 131 133))] [(ILet (mkId (mkR 0 139 140) [97]) (Val (mkR 0 143 144) [(Inner (SId (mkId (mkR 0 143 144) [100])) [])]))]); (SDef (Some (Val (mkR 0 152 154) [(Inner (SId (mkId (mkR 0 152 153) [103])) [])])) (mkR 0 148 173) [] [(IField TyInt (mkId (mkR 0 160 161) [114]) (Some (Val (mkR 0 164 169) [(Inner (SId (mkId (mkR 0 164 165) [101])) [(SufField (mkId (mkR 0 166 167) [97]) (mkR 0 165 167)); (SufField (mkId (mkR 0 168 169) [120]) (mkR 0 167 169))])])))]); (SClass (mkId (mkR 0 179 180) [72]) (Some [(TArg (TyList (TyClass (mkId (mkR 0 186 187) [65]))) (mkId (mkR 0 189 191) [108; 115]) None)]) [] [(IField TyInt (mkId (mkR 0 199 200) [116]) (Some (Val (mkR 0 203 210) [(Inner (SId (mkId (mkR 0 203 205) [108; 115])) [(SufSlice true); (SufField (mkId (mkR 0 209 210) [120]) (mkR 0 208 210))])])))]); (SDef (Some (Val (mkR 0 218 220) [(Inner (SId (mkId (mkR 0 218 219) [107])) [])])) (mkR 0 214 225) [(CRef (mkId (mkR 0 222 223) [66]) [] (mkR 0 222 223))] []); (SForeach (mkId (mkR 0 233 234) [105]) (FeValue (Val (mkR 0 237 241) [(Inner (SId (mkId (mkR 0 237 238) [107])) [(SufField (mkId (mkR 0 239 240) [108]) (mkR 0 238 241))])])) [(SDef None (mkR 0 246 271) [(CRef (mkId (mkR 0 252 253) [65]) [] (mkR 0 252 254))] [(ILet (mkId (mkR 0 260 261) [120]) (Val (mkR 0 264 267) [(Inner (SId (mkId (mkR 0 264 265) [105])) [(SufField (mkId (mkR 0 266 267) [120]) (mkR 0 265 267))])]))])])]] []).
+Example C05_resolution_field_access_nonvacuous2 :
+  ScopeSpecT.frag_ws ex_fa2 = true /\ ScopeSpecT.well_scoped ex_fa2 = true /\
+  length (ScopeSpecT.spec_uses ex_fa2) = 25%nat /\
+  nth 5 (ScopeSpecT.spec_uses ex_fa2) (mkR 0 0 0, None) = (mkR 0 91 92, Some (mkR 0 14 15)) /\
+  nth 7 (ScopeSpecT.spec_uses ex_fa2) (mkR 0 0 0, None) = (mkR 0 107 108, Some (mkR 0 14 15)) /\
+  nth 13 (ScopeSpecT.spec_uses ex_fa2) (mkR 0 0 0, None) = (mkR 0 166 167, Some (mkR 0 139 140)) /\
+  nth 14 (ScopeSpecT.spec_uses ex_fa2) (mkR 0 0 0, None) = (mkR 0 168 169, Some (mkR 0 14 15)) /\
+  nth 17 (ScopeSpecT.spec_uses ex_fa2) (mkR 0 0 0, None) = (mkR 0 209 210, Some (mkR 0 14 15)) /\
+  nth 24 (ScopeSpecT.spec_uses ex_fa2) (mkR 0 0 0, None) = (mkR 0 266 267, Some (mkR 0 14 15)) /\
+  rev (s_uses (index_ws ex_fa2)) = ScopeSpecT.spec_uses ex_fa2.
+Proof. vm_compute. repeat split; reflexivity. Qed.
